@@ -95,7 +95,7 @@ func (cfg *Config) PathConfigs(path string) []PathConfig {
 // or the config validation fails, this function returns an error.
 func ParseConfig(b []byte) (*Config, error) {
 	var c Config
-	if err := yaml.Unmarshal(b, &c); err != nil {
+	if err := decodeYAML(b, &c); err != nil {
 		msg := replaceLineBreaks(err.Error())
 		return nil, errors.New(msg)
 	}
